@@ -2,7 +2,8 @@
 //! Case layout: a0 = [cfg_id]; a1..a3 = field parameters for the Coq model (ignored here,
 //! the Rust type is selected by cfg_id); a4.. = operands as base-prime-field coordinate lists.
 //! Ops: sqrt, legendre, sqrt_with (explicit SqrtPrecomputation built from a2, prime fields),
-//!      sw_ys (get_ys_from_x_unchecked), te_xs (get_xs_from_y_unchecked), params (dump constants).
+//!      sw_ys (get_ys_from_x_unchecked), te_xs (get_xs_from_y_unchecked), params (dump constants),
+//!      precomp_ok (prime fields: the live sqrt-related constants of the compiled configuration).
 #![allow(dead_code)]
 use ark_ec::{
     models::CurveConfig,
@@ -10,7 +11,7 @@ use ark_ec::{
     twisted_edwards::{self as te, MontCurveConfig, TECurveConfig},
 };
 use ark_ff::{
-    fields::{Fp2, Fp2Config, Fp3, Fp3Config, Fp64, MontBackend, MontConfig},
+    fields::{Fp, Fp2, Fp2Config, Fp3, Fp3Config, Fp64, MontBackend, MontConfig},
     Field, LegendreSymbol, MontFp, PrimeField, SqrtPrecomputation,
 };
 use num_bigint::BigUint;
@@ -112,6 +113,108 @@ pub type F641 = Fp64<MontBackend<F641Config, 1>>;
 #[generator = "11"]
 pub struct F769Config;
 pub type F769 = Fp64<MontBackend<F769Config, 1>>;
+
+// ---------------------------------------------------------------- derived prime fields with adversarial limb patterns
+// (props/C11/prop.py DERIVED_FP; generators = least quadratic non-residues, computed in Python).  They exercise the
+// compile-time constant computation of MontConfig (const_add_with_carry / divide_by_2_round_down / two_adic_*):
+// all-ones limbs (carry chain of MODULUS + 1 through several limbs), no spare bit, two-adicity 32 / 66 / 192.
+// 11001: limbs (low first) ffffffffffffffff ffffffffffffffff ffffffffffffffff ffffffffffffffff ffffffffffffffff ffffffffffffffff ffffffffffffffff ffffffffffffffff 00000000000001ff
+#[derive(MontConfig)]
+#[modulus = "6864797660130609714981900799081393217269435300143305409394463459185543183397656052122559640661454554977296311391480858037121987999716643812574028291115057151"]
+#[generator = "3"]
+pub struct DP521Config;
+pub type DP521 = Fp<MontBackend<DP521Config, 9>, 9>;
+
+// 11002: limbs (low first) ffffffffffffffff ffffffffffffffff ffffffffffffffff fffffffeffffffff ffffffffffffffff ffffffffffffffff ffffffffffffffff
+#[derive(MontConfig)]
+#[modulus = "726838724295606890549323807888004534353641360687318060281490199180612328166730772686396383698676545930088884461843637361053498018365439"]
+#[generator = "7"]
+pub struct DEd448Config;
+pub type DEd448 = Fp<MontBackend<DEd448Config, 7>, 7>;
+
+// 11003: limbs (low first) ffffffffffffffff 7fffffffffffffff
+#[derive(MontConfig)]
+#[modulus = "170141183460469231731687303715884105727"]
+#[generator = "3"]
+pub struct DM127Config;
+pub type DM127 = Fp<MontBackend<DM127Config, 2>, 2>;
+
+// 11004: limbs (low first) ffffffffffffffed ffffffffffffffff ffffffffffffffff 7fffffffffffffff
+#[derive(MontConfig)]
+#[modulus = "57896044618658097711785492504343953926634992332820282019728792003956564819949"]
+#[generator = "2"]
+pub struct DC25519Config;
+pub type DC25519 = Fp<MontBackend<DC25519Config, 4>, 4>;
+
+// 11005: limbs (low first) ffffffffffffffff fffffffffffffffe ffffffffffffffff
+#[derive(MontConfig)]
+#[modulus = "6277101735386680763835789423207666416083908700390324961279"]
+#[generator = "11"]
+pub struct DP192Config;
+pub type DP192 = Fp<MontBackend<DP192Config, 3>, 3>;
+
+// 11006: limbs (low first) 00000000ffffffff ffffffff00000000 fffffffffffffffe ffffffffffffffff ffffffffffffffff ffffffffffffffff
+#[derive(MontConfig)]
+#[modulus = "39402006196394479212279040100143613805079739270465446667948293404245721771496870329047266088258938001861606973112319"]
+#[generator = "19"]
+pub struct DP384Config;
+pub type DP384 = Fp<MontBackend<DP384Config, 6>, 6>;
+
+// 11007: limbs (low first) ffffffffffffffff 00000000ffffffff 0000000000000000 ffffffff00000001
+#[derive(MontConfig)]
+#[modulus = "115792089210356248762697446949407573530086143415290314195533631308867097853951"]
+#[generator = "3"]
+pub struct DP256Config;
+pub type DP256 = Fp<MontBackend<DP256Config, 4>, 4>;
+
+// 11008: limbs (low first) ffffffff00000001
+#[derive(MontConfig)]
+#[modulus = "18446744069414584321"]
+#[generator = "7"]
+pub struct DGoldilocksConfig;
+pub type DGoldilocks = Fp<MontBackend<DGoldilocksConfig, 1>, 1>;
+
+// 11009: limbs (low first) 0000000000000001 0000000000000000 0000000000000000 0800000000000011
+#[derive(MontConfig)]
+#[modulus = "3618502788666131213697322783095070105623107215331596699973092056135872020481"]
+#[generator = "3"]
+pub struct DStark252Config;
+pub type DStark252 = Fp<MontBackend<DStark252Config, 4>, 4>;
+
+// 11010: limbs (low first) 0000000000000001 ffffffffffffffe4
+#[derive(MontConfig)]
+#[modulus = "340282366920938462946865773367900766209"]
+#[generator = "7"]
+pub struct DTa66Config;
+pub type DTa66 = Fp<MontBackend<DTa66Config, 2>, 2>;
+
+// 11011: limbs (low first) ffffffffffffffff 39fbbc55f6fa5db8
+#[derive(MontConfig)]
+#[modulus = "77073082175067733180471659262336040959"]
+#[generator = "3"]
+pub struct DLow1Config;
+pub type DLow1 = Fp<MontBackend<DLow1Config, 2>, 2>;
+
+// 11012: limbs (low first) ffffffffffffffff ffffffffffffffff 39526095d64be5f0
+#[derive(MontConfig)]
+#[modulus = "1405526109768027937364271859346875960389480045257108226047"]
+#[generator = "5"]
+pub struct DLow2Config;
+pub type DLow2 = Fp<MontBackend<DLow2Config, 3>, 3>;
+
+// 11013: limbs (low first) ffffffffffffffff e7b4b57e83cb86df ffffffffffffffff
+#[derive(MontConfig)]
+#[modulus = "6277101735386680763803497017887255111159706379304115896319"]
+#[generator = "13"]
+pub struct DLow1TopConfig;
+pub type DLow1Top = Fp<MontBackend<DLow1TopConfig, 3>, 3>;
+
+// 11014: limbs (low first) ffffffffffffffff ffffffffffffffff ffffffffffffffff 0c63009a840cab34
+#[derive(MontConfig)]
+#[modulus = "5602676208150477583320637278658960735318874063533280938057934193582636269567"]
+#[generator = "5"]
+pub struct DLow3Config;
+pub type DLow3 = Fp<MontBackend<DLow3Config, 4>, 4>;
 
 pub struct F7x2Config;
 impl Fp2Config for F7x2Config {
@@ -370,6 +473,21 @@ fn field_op<F: Field>(op: &str, a: &[Arg]) -> Vec<Arg> {
 }
 fn prime_op<F: PrimeField>(op: &str, a: &[Arg]) -> Vec<Arg> {
     match op {
+        // the constants the compiled configuration really holds (the model computes the same list from the modulus
+        // and GENERATOR alone): SQRT_PRECOMP, [TWO_ADICITY, TRACE, TRACE_MINUS_ONE_DIV_TWO, MODULUS_MINUS_ONE_DIV_TWO,
+        // MODULUS_BIT_SIZE], [GENERATOR, TWO_ADIC_ROOT_OF_UNITY]
+        "precomp_ok" => ok(vec![
+            vec![from_u64(1)],
+            precomp_arg::<F>(),
+            vec![
+                from_u64(F::TWO_ADICITY as u64),
+                from_biguint(&F::TRACE.into()),
+                from_biguint(&F::TRACE_MINUS_ONE_DIV_TWO.into()),
+                from_biguint(&F::MODULUS_MINUS_ONE_DIV_TWO.into()),
+                from_u64(F::MODULUS_BIT_SIZE as u64),
+            ],
+            vec![big(&F::GENERATOR), big(&F::TWO_ADIC_ROOT_OF_UNITY)],
+        ]),
         "sqrt_with" => {
             let x = elem::<F>(&a[4]);
             let pc = &a[2];
@@ -417,7 +535,7 @@ fn modulus<F: PrimeField>() -> SIntT {
     from_biguint(&F::MODULUS.into())
 }
 fn fp_params<F: PrimeField>() -> Vec<Arg> {
-    ok(vec![vec![from_u64(1), modulus::<F>()], precomp_arg::<F>(), vec![]])
+    ok(vec![vec![from_u64(1), modulus::<F>()], precomp_arg::<F>(), vec![big(&F::GENERATOR)]])
 }
 fn fp2_params<P: Fp2Config>() -> Vec<Arg> {
     ok(vec![vec![from_u64(2), modulus::<P::Fp>(), big(&P::NONRESIDUE)], precomp_arg::<P::Fp>(), vec![]])
@@ -548,6 +666,21 @@ fn run(op: &str, a: &[Arg]) -> Vec<Arg> {
         10014 => prime!(ark_secp256k1::Fr, op, a),
         10015 => prime!(ark_vesta::Fq, op, a),
         10016 => prime!(ark_ed_on_bn254::Fq, op, a),
+        // derived prime fields with adversarial limb patterns
+        11001 => prime!(DP521, op, a),
+        11002 => prime!(DEd448, op, a),
+        11003 => prime!(DM127, op, a),
+        11004 => prime!(DC25519, op, a),
+        11005 => prime!(DP192, op, a),
+        11006 => prime!(DP384, op, a),
+        11007 => prime!(DP256, op, a),
+        11008 => prime!(DGoldilocks, op, a),
+        11009 => prime!(DStark252, op, a),
+        11010 => prime!(DTa66, op, a),
+        11011 => prime!(DLow1, op, a),
+        11012 => prime!(DLow2, op, a),
+        11013 => prime!(DLow1Top, op, a),
+        11014 => prime!(DLow3, op, a),
         // shipped extensions
         12001 => quad!(ark_bls12_381::Fq2Config, op, a),
         12002 => quad!(ark_bn254::Fq2Config, op, a),
